@@ -44,7 +44,7 @@ def hyp_case(draw, max_len):
     warm = draw(gens.warmups())
     s = draw(gens.sequences(max_len=60 if warm else max_len))
     alt = draw(gens.spelled(ref.pattern(s)))
-    return {"seq": s, "respell": alt, "warm": warm}
+    return {"seq": s, "respell": alt, "warm": warm, "paste": draw(gens.paste_opt())}
 
 
 def few_charge_cases(tier, seed):
